@@ -19,14 +19,7 @@ PER_TU = 8
 
 
 def regenerate_tables():
-    """run the translator against the working tree; returns info dict"""
-    import cxx2coq
-    libdir, err = lib_build("asan")
-    if err:
-        return None, err
-    with flock(os.path.join(BUILD, "coq.lock")):
-        info = cxx2coq.generate(libdir, os.path.join(COQ, "gen", "Tables.v"))
-    return info, None
+    return ensure_tables()
 
 
 def parse_fields(line):
@@ -63,6 +56,10 @@ def compare(pid, case, mline, iline):
         norm = (lambda x: strip_idents(x)) if pid == "C10" else (lambda x: x)
         key = (lambda x: log_entries(x)) if c2 else (lambda x: x)
         doc = norm(m["doc"])
+        if pid == "C10" and "rvalue" in i:
+            b = norm(i["rvalue"])
+            if key(b) != key(doc):
+                diffs.append(("rvalue-vs-documented", doc, b))
         for route, mk in (("direct", "direct"), ("slot", "slot"), ("signal", "slot")):
             a, b = norm(m[mk]), norm(i.get(route, ""))
             if key(b) != key(doc):
